@@ -3,6 +3,7 @@ import Tickit.Proof.LifeCopy
 import Tickit.Proof.LifeStep
 import Tickit.Proof.LifePens
 import Tickit.Proof.LifeKeys
+import Tickit.Proof.LifeMouse
 import Tickit.Gen.Life
 /-
   Property C08 — no API history touches freed or foreign memory, and everything is released.
@@ -26,7 +27,7 @@ def extracted : Cfg :=
 /-- The source tree contains the repairs the theorems below need (close purges the queue and forgets the drag
     source, destroy closes a child before dropping its reference, `get_span_text` terminates only with room).
     A tree that loses one of them breaks this obligation at build time. -/
-theorem extracted_repaired : Repaired extracted := ⟨by decide, by decide, by decide, by decide, by decide, by decide⟩
+theorem extracted_repaired : Repaired extracted := ⟨by decide, by decide, by decide, by decide, by decide, by decide, by decide⟩
 
 /-! ## bounded_copy — copy-out calls never write beyond the length given -/
 
@@ -220,37 +221,44 @@ theorem handlers_counterexample : ¬ no_ub_handlers_full := by
   rw [h3] at h2
   cases h2
 
-/-! ### key events delivered to handlers that free nothing -/
+/-! ### key and mouse events delivered to handlers that free nothing -/
 
-/-- A history with key events: operations that deliver no event, `bind` of handlers (on key or mouse events) whose
+/-- A history with events: operations that deliver no event, `bind` of handlers (on key or mouse events) whose
     actions are anything but `tickit_window_unref` — close, take a reference, restack, hide, show, flush, unbind
-    themselves — and key events (`tickit_term_emit_key`). -/
-def KeyHistory (ops : List Op) : Prop :=
-  ∀ op ∈ ops, (op.plain = true ∨ op.penEvent = true ∨ op = .key) ∧
+    themselves — key events (`tickit_term_emit_key`) and mouse events (`tickit_term_emit_mouse`: press, drag with
+    DRAG_START / DRAG_OUTSIDE, release with DRAG_DROP / DRAG_STOP, wheel). -/
+def EventHistory (ops : List Op) : Prop :=
+  ∀ op ∈ ops, (op.plain = true ∨ op.penEvent = true ∨ op = .key ∨ ∃ m, op = .mouse m) ∧
     (∀ w ev ret acts, op = .bind w ev ret acts → ∀ a ∈ acts, a.keeps = true)
 
-/-- **no_ub with key handlers (partial)**: for every history in which handlers free nothing, key events run to the
-    end — `_handle_key` finds every window it follows alive, every frame gives back the references it took (its own
-    window, the counted snapshot of the children), and the invariant of `no_ub` holds again afterwards.  The proof
-    carries the account `1 + int i ≤ refcount i ≤ appRefs i + int i` through the recursion, `int i` being the
-    references the frames of `_handle_key` hold on window `i` (Proof/LifeKeys.lean). -/
-theorem no_ub_key_handlers : ∀ (ops : List Op) (st : St), SInv st → KeepingHandlers st → KeyHistory ops →
+/-- **no_ub with handlers (partial)**: for every history in which handlers free nothing, key and mouse events run to
+    the end — `_handle_key`, `_handle_mouse` and `on_term_mouse` find every window they follow alive (the children of
+    the snapshot, the focused child, the drag source), every frame gives back the references it took (its own window,
+    the counted snapshot of the children, the counted return of `_handle_mouse`, the root window held by
+    `on_term_mouse`), and the invariant of `no_ub` holds again afterwards.  The proof carries the account
+    `1 + int i ≤ refcount i ≤ appRefs i + int i` through the recursion, `int i` being the references the frames hold
+    on window `i` (Proof/LifeKeys.lean, Proof/LifeMouse.lean). -/
+theorem no_ub_handlers_keeping : ∀ (ops : List Op) (st : St), SInv st → KeepingHandlers st → EventHistory ops →
     ∃ st', runOps extracted st ops = .ok st' ∧ SInv st' ∧ KeepingHandlers st'
   | [], st, inv, H, _ => ⟨st, rfl, inv, H⟩
   | op :: rest, st, inv, H, h => by
-    have hrest : KeyHistory rest := fun o ho => h o (by simp [ho])
+    have hrest : EventHistory rest := fun o ho => h o (by simp [ho])
     obtain ⟨hkind, hbind⟩ := h op (by simp)
-    rcases hkind with hp | hpe | hk
+    rcases hkind with hp | hpe | hk | ⟨m, hm⟩
     · obtain ⟨st1, r, hs, inv1⟩ := step_plain_ok extracted_repaired inv op hp
       have H1 := step_plain_keeps hp H hbind hs
-      obtain ⟨st2, hr, inv2, H2⟩ := no_ub_key_handlers rest st1 inv1 H1 hrest
+      obtain ⟨st2, hr, inv2, H2⟩ := no_ub_handlers_keeping rest st1 inv1 H1 hrest
       exact ⟨st2, by unfold runOps; rw [hs]; exact hr, inv2, H2⟩
     · obtain ⟨st1, r, hs, inv1, hwx⟩ := step_pen_ok extracted_repaired inv op hpe
-      obtain ⟨st2, hr, inv2, H2⟩ := no_ub_key_handlers rest st1 inv1 (H.of_wx hwx) hrest
+      obtain ⟨st2, hr, inv2, H2⟩ := no_ub_handlers_keeping rest st1 inv1 (H.of_wx hwx) hrest
       exact ⟨st2, by unfold runOps; rw [hs]; exact hr, inv2, H2⟩
     · subst hk
       obtain ⟨st1, r, hs, inv1, H1⟩ := step_key_ok extracted_repaired inv H
-      obtain ⟨st2, hr, inv2, H2⟩ := no_ub_key_handlers rest st1 inv1 H1 hrest
+      obtain ⟨st2, hr, inv2, H2⟩ := no_ub_handlers_keeping rest st1 inv1 H1 hrest
+      exact ⟨st2, by unfold runOps; rw [hs]; exact hr, inv2, H2⟩
+    · subst hm
+      obtain ⟨st1, r, hs, inv1, H1⟩ := step_mouse_ok extracted_repaired inv H m
+      obtain ⟨st2, hr, inv2, H2⟩ := no_ub_handlers_keeping rest st1 inv1 H1 hrest
       exact ⟨st2, by unfold runOps; rw [hs]; exact hr, inv2, H2⟩
 
 theorem keepingHandlers_init (lines cols : Int) : KeepingHandlers
@@ -265,16 +273,19 @@ theorem keepingHandlers_init (lines cols : Int) : KeepingHandlers
     simp at hb
 
 /-- Non-vacuity: a key handler on a grandchild that closes its parent, takes a reference to the root, queues a
-    restacking request and unbinds itself, a second handler on the root that flushes; two key events. -/
-example : KeyHistory [.win 0 ⟨0, 0, 4, 8⟩ 0, .win 1 ⟨0, 0, 2, 4⟩ 0, .bind 2 .key false [.close 1, .ref 0, .restack .raise 2, .unbindSelf],
-    .bind 0 .key true [.flush], .key, .key] := by
+    restacking request and unbinds itself, a second handler on the root that flushes; a mouse handler that claims the
+    event and closes its window (the drag source of the drag that follows); key events, press, drag, drag, release. -/
+example : EventHistory [.win 0 ⟨0, 0, 4, 8⟩ 0, .win 1 ⟨0, 0, 2, 4⟩ 0, .bind 2 .key false [.close 1, .ref 0, .restack .raise 2, .unbindSelf],
+    .bind 0 .key true [.flush], .key, .key, .win 0 ⟨0, 0, 3, 3⟩ 0, .bind 3 .mouse true [.close 3], .mouse ⟨1, 1, 1, 1⟩,
+    .mouse ⟨2, 1, 1, 2⟩, .mouse ⟨2, 1, 5, 5⟩, .mouse ⟨3, 1, 1, 1⟩] := by
   intro op hop
   simp at hop
-  rcases hop with rfl | rfl | rfl | rfl | rfl | rfl <;> simp [Op.plain, Op.penEvent, Act.keeps]
+  rcases hop with rfl | rfl | rfl | rfl | rfl | rfl | rfl | rfl | rfl | rfl | rfl | rfl <;> simp [Op.plain, Op.penEvent, Act.keeps]
 
 example : (runOps extracted {} [.newTerm 6 12 false, .win 0 ⟨0, 0, 4, 8⟩ 0, .win 1 ⟨0, 0, 2, 4⟩ 0,
-    .bind 2 .key false [.close 1, .ref 0, .restack .raise 2, .unbindSelf], .bind 0 .key true [.flush], .key, .key, .«end»]).isOk
-    = true := by decide +kernel
+    .bind 2 .key false [.close 1, .ref 0, .restack .raise 2, .unbindSelf], .bind 0 .key true [.flush], .key, .key,
+    .win 0 ⟨0, 0, 3, 3⟩ 0, .bind 3 .mouse true [.close 3], .mouse ⟨1, 1, 1, 1⟩, .mouse ⟨2, 1, 1, 2⟩, .mouse ⟨2, 1, 5, 5⟩,
+    .mouse ⟨3, 1, 1, 1⟩, .«end»]).isOk = true := by decide +kernel
 
 /-! ## refcount_inv — a count is the number of holders -/
 
@@ -340,9 +351,9 @@ theorem all_released (lines cols : Int) (mock : Bool) (ops : List Op) (h : Plain
   rfl
 
 /-- The same from the very beginning, and with the final release of everything: nothing remains allocated. -/
-theorem all_released_key_handlers (lines cols : Int) (mock : Bool) (ops : List Op) (h : KeyHistory ops) :
+theorem all_released_handlers_keeping (lines cols : Int) (mock : Bool) (ops : List Op) (h : EventHistory ops) :
     ∃ st, runOps extracted {} (.newTerm lines cols mock :: ops ++ [.«end»]) = .ok st ∧ anythingLeft st = false := by
-  obtain ⟨st1, hr, inv1, _⟩ := no_ub_key_handlers ops _ (SInv.init lines cols) (keepingHandlers_init lines cols) h
+  obtain ⟨st1, hr, inv1, _⟩ := no_ub_handlers_keeping ops _ (SInv.init lines cols) (keepingHandlers_init lines cols) h
   obtain ⟨st2, hd, _, hleft⟩ := drop_all_never_fails st1 inv1
   refine ⟨st2, ?_, hleft⟩
   have h0 : runOps extracted {} (.newTerm lines cols mock :: ops) = .ok st1 := by
